@@ -597,7 +597,7 @@ def focus(r):
     k = r.choice([1, 2, 3, 3, 4, 5, 6, 7, 12])
     form = r.choice(["k*dt", "k*dt", "k/12" if dt == 1 / 12 else "k*dt", "k/52" if dt == 1 / 52 else "(k+.5)*dt", "half", "(k+.5)*dt"])
     D = form_D(form, k, dt)
-    feats = {"timed": r.choice([1, 1, 2]), "dt": dt, "group_size": r.choice([1, 1, 2, 2, 3]), "group_junction": r.choice([0.0, 0.5, 1.0]), "nsteps": r.randint(8, 22)}
+    feats = {"timed": r.choice([1, 1, 2]), "dt": dt, "group_size": r.choice([1, 1, 2, 2, 3]), "group_junction": r.choice([0.0, 0.5, 1.0]), "nsteps": r.randint(8, 22), "dur_function": 0.25}
     x = r.random()
     if x < 0.55:
         feats["duration"] = D
